@@ -65,7 +65,7 @@ PLANS = {
     },
     "C12": {
         "level": "proof",
-        "sidecars": ["driver", "charges", "repair"],
+        "sidecars": ["driver", "charges", "repair", "debump"],
         "extras": [],
         "explanation": "failure side: the output writers are reached only after every check and the whole computation, "
                        "never on a path on which an exception escapes; option checks; integrality guard",
